@@ -514,6 +514,10 @@ def run(facts, rep, tier):
     rule_r3(facts, rep)
     rule_r4(facts, rep)
     rule_r5(facts, rep)
+    rep.rule("C04-R5b", "Allocator freshness: new_line_id / new_node_id return the arena length, and Arena::add_line returns on every exit the id it just drew, after one unconditional "
+             "push of Line::new(id, inlines) - a line never gets a second owner (delete_branch blanks the lines of the replaced version: a shared line would empty text of another note).")
+    from . import arena
+    arena.rule_fresh_ids(facts, rep, "C04-R5b")
     rule_r6(facts, rep)
     rep.rule("C04-R2b", "= C20-R3: the typed node accessors (Section::child_id, Quote::next_id, ...) return the field they are named after - the incremental index walk descends "
              "through them, while a fresh start indexes every arena slot directly.")
